@@ -571,7 +571,8 @@ def ruleHalfAfterHH(ts: datetime, _: RegexMatch, t: Time) -> Optional[Time]:
 def ruleTODPOD(ts: datetime, tod: Time, pod: Time) -> Optional[Time]:
     # time of day may only be an hour as in "3 in the afternoon"; this
     # is only relevant for time <= 12
-    if tod.hour < 12 and (
+    # (hour 0 is midnight whatever the part of day: "0 uhr nachts")
+    if 0 < tod.hour < 12 and (
         "afternoon" in pod.POD
         or "evening" in pod.POD
         or "night" in pod.POD
@@ -782,7 +783,7 @@ def rulePODInterval(ts: datetime, p: Time, i: Interval) -> Optional[Interval]:
     def _adjust_h(t: Time) -> Optional[int]:
         if t.hour is None:
             return None
-        if t.hour < 12 and (
+        if 0 < t.hour < 12 and (
             "afternoon" in p.POD
             or "evening" in p.POD
             or "night" in p.POD
